@@ -124,9 +124,48 @@ def oracle(program, aux):
                 reg = region(ia if off < len(ia) else ib, min(off, max(len(ia), len(ib)) - 1))
                 failures.append(('C14/final-image-differs/%s/%s' % (rowtag, reg), 'state-changed',
                                  'final image differs from the twin run without the refused call(s) %s at byte %d (sector %d, %s); lengths %d vs %d' % (rows, off, off // 2048, reg, len(ia), len(ib))))
+    if not failures and not a.dead and not b.dead and not a.problems and not b.problems:
+        # teardown: give everything back (El Torito, every file, every symlink, every directory bottom-up) in both
+        # runs and compare again - counters, link counts and reservations that a refused call left behind only
+        # show when what they belong to is released
+        tear = teardown_ops(len(a.applied))
+        na, nb_ = len(a.ops), len(b.ops)
+        a.ops = a.ops + tear
+        b.ops = b.ops + tear
+        for run, n0 in ((a, na), (b, nb_)):
+            for i in range(n0, len(run.ops)):
+                if run.dead:
+                    break
+                run.step(i)
+        if b.dead or b.problems:
+            a.stats['c01_domain'] += 1
+        else:
+            a.stats['teardowns'] = a.stats.get('teardowns', 0) + 1
+            for pr in a.problems:
+                failures.append(('C14/teardown-fails/%s/%s' % (rowtag, pr.sig), 'later-edits', 'after the refused call(s) %s, while removing everything again: %s (the same history without the refused call runs cleanly)' % (rows, pr.msg[:300])))
+            if not a.dead and not a.problems:
+                ia, ib = a.write(), b.write()
+                if ia is None and ib is not None:
+                    pr = a.problems[-1]
+                    failures.append(('C14/teardown-write-fails/%s/%s' % (rowtag, pr.sig.split('/')[-1]), 'write-after-refusal', 'write_fp after removing everything raised after refused call(s) %s: %s' % (rows, pr.msg[:300])))
+                elif ia is not None and ib is not None:
+                    off = first_diff(ia, ib)
+                    if off is not None:
+                        reg = region(ia if off < len(ia) else ib, min(off, max(len(ia), len(ib)) - 1))
+                        failures.append(('C14/teardown-image-differs/%s/%s' % (rowtag, reg), 'state-changed',
+                                         'after removing everything again the image differs from the twin run without the refused call(s) %s at byte %d (sector %d, %s); lengths %d vs %d' % (rows, off, off // 2048, reg, len(ia), len(ib))))
     a.close()
     b.close()
     return a, failures
+
+
+def teardown_ops(n_applied):
+    k = min(60, n_applied + 2)
+    ops = [{'k': 'rm_hybrid'}, {'k': 'rm_boot'}]
+    ops += [{'k': 'rm_file', 'b': 0, 'j': 0}] * k
+    ops += [{'k': 'rm_sym', 'i': 0}] * k
+    ops += [{'k': 'rm_dir', 'd': 0, 'ns': 7}] * k
+    return [dict(o, n=300000 + i) for i, o in enumerate(ops)]
 
 
 def extra_classes(run):
